@@ -17,7 +17,7 @@ from . import intervals
 from .intervals import Intervals, ty_range, hull, fits
 from .mir import Term, op_const, strip_generics
 
-MAX_ROUNDS = 8
+MAX_ROUNDS = 12
 
 
 def _field_of(place):
@@ -116,63 +116,161 @@ def infer(facts, crates=None):
         for name in forder[adt]:
             bad.add((adt, name))
     fields = [f for f in ftype if f not in bad and f in writers]
-    cur = {}          # field -> interval or None (bottom)
-    intervals.FIELD_RANGES.clear()
+    # F(cand): for every field the hull of all values written to it, each evaluated by the interval analysis of the
+    # writing function under the assumption that every field read is within `cand`
     by_body = {}
     for f in fields:
         for w in writers[f]:
             by_body.setdefault(w[0].path, (w[0], []))[1].append((f, w))
+    thresholds = {}     # field -> thresholds seen in the functions that write it
+
+    reads = {}
+    for path, (b, ws) in by_body.items():
+        rs = set()
+
+        def see(pl):
+            for e in pl[1]:
+                if isinstance(e, list) and e[0] == "f" and len(e) > 3 and e[3] and (e[3], e[2]) in ftype:
+                    rs.add((e[3], e[2]))
+        for blk in b.blocks:
+            for st in blk.stmts:
+                if st[0] != "A":
+                    continue
+                see(st[1])
+                for x in st[2][1:]:
+                    if isinstance(x, list) and x:
+                        if x[0] in ("c", "m") and len(x) > 1 and isinstance(x[1], list):
+                            see(x[1])
+                        elif isinstance(x[0], int):
+                            see(x)
+                        elif isinstance(x[0], list):
+                            for y in x:
+                                if isinstance(y, list) and y and y[0] in ("c", "m"):
+                                    see(y[1])
+            t = blk.term
+            if t.kind == "call":
+                for a in t.args:
+                    if a[0] in ("c", "m"):
+                        see(a[1])
+            elif t.kind == "assert":
+                for a in t.d[4]:
+                    if a[0] in ("c", "m"):
+                        see(a[1])
+        reads[path] = rs
+    cache = {}
+
+    def F(cand):
+        intervals.FIELD_RANGES.clear()
+        for f, r in cand.items():
+            if r != ftype[f]:
+                intervals.FIELD_RANGES[f] = r
+        out = {}
+        for path, (b, ws) in by_body.items():
+            key = (path, tuple(sorted((f, cand[f]) for f in reads[path] if f in cand and cand[f] != ftype[f])))
+            vals = cache.get(key)
+            if vals is None:
+                vals = []
+                iv = Intervals(b)
+                for f, _w in ws:
+                    thresholds.setdefault(f, set(intervals.STD_THRESHOLDS)).update(iv.thresholds)
+                for f, (_, bb, j, o) in ws:
+                    tr = ftype[f]
+                    if not iv.converged:
+                        val = tr
+                    else:
+                        st = iv.state_before_stmt(bb, j)
+                        if st is None:
+                            vals.append((f, None))     # unreachable store
+                            continue
+                        if isinstance(o, tuple) and o[0] == "cast":
+                            a = iv.rng(st, o[1][2])
+                            val = a if (a is not None and fits(a, tr)) else tr
+                        else:
+                            val = iv.rng(st, o)
+                            if val is None or not fits(val, tr):
+                                val = tr
+                    vals.append((f, val))
+                cache[key] = vals
+            for f, val in vals:
+                if val is None:
+                    continue
+                prev = out.get(f)
+                out[f] = val if prev is None else hull(prev, val)
+        intervals.FIELD_RANGES.clear()
+        return out
+
+    # start from the literal constants stored into each field (ascending iteration from below); a field with no
+    # constant store starts unconstrained and can only be narrowed in the descending phase
+    cur = {}
+    for f in fields:
+        cs = []
+        for (_, _, _, o) in writers[f]:
+            if isinstance(o, list) and o and o[0] == "k":
+                c = op_const(o)
+                if c and c[1] is not None:
+                    cs.append(c[1])
+        cur[f] = (min(cs), max(cs)) if cs and fits((min(cs), max(cs)), ftype[f]) else ftype[f]
     stable = False
     for rnd in range(MAX_ROUNDS):
-        # reads assume the current candidate; fields still at bottom read as their type range (no assumption)
-        intervals.FIELD_RANGES.clear()
-        for f, r in cur.items():
-            if r is not None:
-                intervals.FIELD_RANGES[f] = r
-        new = dict(cur)
-        for path, (b, ws) in by_body.items():
-            iv = Intervals(b)
-            for f, (_, bb, j, o) in ws:
-                tr = ftype[f]
-                if not iv.converged:
-                    val = tr
-                else:
-                    st = iv.state_before_stmt(bb, j)
-                    if st is None:
-                        continue      # unreachable store
-                    if isinstance(o, tuple) and o[0] == "cast":
-                        a = iv.rng(st, o[1][2])
-                        val = a if (a is not None and fits(a, tr)) else tr
-                    else:
-                        val = iv.rng(st, o)
-                        if val is None:
-                            val = tr
-                        elif not fits(val, tr):
-                            val = tr
-                prev = new.get(f)
-                new[f] = val if prev is None else hull(prev, val)
-        # widen what is still moving after a few rounds
+        w = F(cur)
         changed = False
         for f in fields:
-            a, b2 = cur.get(f), new.get(f)
-            if a != b2:
+            ths = sorted(thresholds.get(f, intervals.STD_THRESHOLDS))
+            v = w.get(f)
+            if v is None:
+                continue
+            a = cur[f]
+            n = hull(a, v)
+            if n != a:
                 changed = True
-                if rnd >= 3 and a is not None and b2 is not None:
-                    tr = ftype[f]
-                    lo = tr[0] if b2[0] < a[0] else b2[0]
-                    hi = tr[1] if b2[1] > a[1] else b2[1]
-                    new[f] = (lo, hi)
-        cur = new
+                tr = ftype[f]
+                if rnd >= 2:
+                    lo, hi = n
+                    if n[0] < a[0]:
+                        lo = max([t for t in ths if t <= n[0]] + [tr[0]]) if rnd < 7 else tr[0]
+                    if n[1] > a[1]:
+                        hi = min([t for t in ths if t >= n[1]] + [tr[1]]) if rnd < 7 else tr[1]
+                    n = (max(lo, tr[0]), min(hi, tr[1]))
+                cur[f] = n
         if not changed:
             stable = True
             break
-    intervals.FIELD_RANGES.clear()
     if not stable:
+        return {}
+    # descending phase: F is monotone, so F(post-fixpoint) is again a post-fixpoint
+    for _ in range(3):
+        w = F(cur)
+        nxt = dict(cur)
+        smaller = False
+        for f in fields:
+            v = w.get(f)
+            if v is None:
+                continue
+            if fits(v, cur[f]) and v != cur[f]:
+                nxt[f] = v
+                smaller = True
+        if not smaller:
+            break
+        # keep the step only if it is still inductive
+        w2 = F(nxt)
+        if all(fits(w2[f], nxt[f]) for f in fields if f in w2):
+            cur = nxt
+        else:
+            break
+    # final check (defensive): every write stays inside the candidate under the candidate's own assumption
+    for _ in range(4):
+        w = F(cur)
+        viol = [f for f in fields if f in w and not fits(w[f], cur[f])]
+        if not viol:
+            break
+        for f in viol:
+            cur[f] = ftype[f]
+    else:
         return {}
     out = {}
     for f in fields:
         r = cur.get(f)
-        if r is not None and r != ftype[f]:
+        if r is not None and r != ftype[f] and any(True for _ in writers[f]):
             out[f] = r
     return out
 
